@@ -111,6 +111,8 @@ def run(case: dict, ctx) -> dict:
     text, model = gen_config(rng, case["len"])
     phrase = rng.choice(PHRASES)
     rounds = rng.choice([1, 2, 10, 1000, rng.randrange(1, 2001)])
+    if case["i"] % 23 == 5:
+        rounds = rng.choice([100_001, 250_000, 600_000])  # what current products write (the count is a 32-bit decimal; nothing bounds it)
     salt = bytes(rng.randrange(256) for _ in range(rng.choice([8, 16, 32, rng.randrange(8, 33)])))
     data_key = bytes(rng.randrange(256) for _ in range(ks))
     dict_style = rng.choice(["full", "vmware", "vmware"])
@@ -118,14 +120,17 @@ def run(case: dict, ctx) -> dict:
         # make sure the base64 of the salt really contains '+' and '/' (bytes 0xfb 0xef 0xbe.. encode to "++++", 0xff.. to "////")
         salt = (b"\xfb\xef\xbe\xff\xff\xff" + salt)[: max(len(salt), 8)]
         data_key = (b"\xfb\xef\xbe\xff\xff\xff" + data_key)[:ks]
-    blob, p = w.phrase_pair(rng, phrase, data_key, cipher=cipher, mac=mac, kdf=kdf, rounds=rounds, salt=salt, ident=rng.choice(["id1", "a b/c", "ключ"]),
+    real_ident = rng.choice(["id1", "a b/c", "ключ"])
+    blob, p = w.phrase_pair(rng, phrase, data_key, cipher=cipher, mac=mac, kdf=kdf, rounds=rounds, salt=salt, ident=real_ident,
                             data_cipher=data_cipher, dict_style=dict_style)
     # decoy pairs that do not match the passphrase
     decoys = []
     for j in range(rng.choice([0, 0, 1, 3, 3, 15, 16, 24])):
         dk2 = bytes(rng.randrange(256) for _ in range(ks))
         b2, p2 = w.phrase_pair(rng, phrase + f"-other{j}", dk2, cipher=rng.choice(CIPHERS), mac=rng.choice(MACS), kdf=rng.choice(KDFS),
-                               rounds=rng.randrange(1, 50), salt=bytes(rng.randrange(256) for _ in range(16)), ident=f"decoy{j}")
+                               rounds=rng.randrange(1, 50), salt=bytes(rng.randrange(256) for _ in range(16)),
+                               # several pairs may carry the same phrase id (the same key slot re-wrapped under another passphrase)
+                               ident=f"decoy{j}" if rng.random() < 0.7 else real_ident)
         decoys.append(w.pair_text(b2, p2))
     data_blob = w.seal(data_key, text.encode(), mac, bytes(rng.randrange(256) for _ in range(16)))
     plain_lines = [f'displayName = "{rng.choice(["vm", "VM 1", "é"])}"', "# comment"] if rng.random() < 0.5 else []
